@@ -322,11 +322,15 @@ static inline const double *vnadata_get_frequency_vector(const vnadata_t *vdp)
 static inline int vnadata_set_frequency_vector(vnadata_t *vdp,
 	const double *frequency_vector)
 {
-    if (vdp == NULL || frequency_vector == NULL) {
+    if (vdp == NULL) {
 	errno = EINVAL;
 	return -1;
     }
     if (vdp->vd_frequencies > 0) {
+	if (frequency_vector == NULL) {
+	    errno = EINVAL;
+	    return -1;
+	}
 	(void)memcpy((void *)vdp->vd_frequency_vector, (void *)frequency_vector,
 	    vdp->vd_frequencies * sizeof(double));
     }
